@@ -246,7 +246,7 @@ _p('C03', ['B2', 'WB', 'N1', 'B1', 'E2', 'E11', 'OPT', 'G5', 'A3', 'F2', 'RNG', 
                "for write loops from the validated window, dominating-guard facts for helper asserts.",
    floors={'B2': 40})
 
-_p('C14', ['I', 'IDX', 'TY1', 'XDT', 'B3', 'B2', 'N2a', 'A9', 'N4', 'MEMO', 'SGN0'],
+_p('C14', ['I', 'IDX', 'TY1', 'XDT', 'B3', 'B2', 'N2a', 'A9', 'N4', 'MEMO', 'SGN0', 'DELEG'],
    decided=["item i occupies bits [i*w, (i+1)*w) with w in bits for every fixed-length dtype incl. byte-multiplier ones: "
             "bit counts (len of data, Dtype.bitlength, itemsize), unit counts (Dtype.length) and item counts are never "
             "mixed in array_.py (three-sorted dimension analysis of every arithmetic, comparison, slice bound, position)",
@@ -330,7 +330,7 @@ _p('C15', ['CHOKE', 'E5', 'WIN', 'XDT', 'E4', 'LV', 'H3', 'H2', 'H4', 'B2', 'D2'
    explanation="Who-may-call and guard-dominance check of the Dtype choke point, sibling agreement of setters and ingest "
                "routes, validate-before-mutate path rule.")
 
-_p('C19', ['ESC', 'POST', 'H3', 'N2', 'CHOKE', 'I', 'LZ'],
+_p('C19', ['ESC', 'POST', 'H3', 'N2', 'CHOKE', 'I', 'LZ', 'DELEG'],
    decided=["pp output contains no terminal escape sequences when options.no_color is set: escape literals occur only in "
             "Colour.__new__ under `if use_colour`, the else branch assigns empty strings to the same attributes, and "
             "every Colour is constructed from `not options.no_color`",
